@@ -5,6 +5,7 @@ import (
 
 	"github.com/hashicorp/hcl/v2"
 	"github.com/hashicorp/hcl/v2/hcldec"
+	"github.com/hashicorp/hcl/v2/hclsyntax"
 	"github.com/zclconf/go-cty/cty"
 	"github.com/zclconf/go-cty/cty/function"
 
@@ -21,6 +22,37 @@ var transformFn = function.New(&function.Spec{
 		return ref.TransformUpper(v).WithMarks(marks), nil
 	},
 })
+
+// toNumberFn is the type-changing harness transform (reference: ref.TransformToNumber).
+var toNumberFn = function.New(&function.Spec{
+	Params: []function.Parameter{{Name: "v", Type: cty.DynamicPseudoType, AllowNull: true, AllowUnknown: true, AllowDynamicType: true, AllowMarked: true}},
+	Type:   function.StaticReturnType(cty.Number),
+	Impl: func(args []cty.Value, rt cty.Type) (cty.Value, error) {
+		v, marks := args[0].Unmark()
+		return ref.TransformToNumber(v).WithMarks(marks), nil
+	},
+})
+
+// transformSpec builds the hcldec transform for a harness transform description.
+func transformSpec(s *gen.SpecM) hcldec.Spec {
+	fn := transformFn
+	if s.Func == "to_number" {
+		fn = toNumberFn
+	}
+	if !s.ViaExpr {
+		return &hcldec.TransformFuncSpec{Wrapped: toHCLDec(s.Nested), Func: fn}
+	}
+	expr, diags := hclsyntax.ParseExpression([]byte("xform(v)"), "transform.hcl", hcl.InitialPos)
+	if diags.HasErrors() {
+		panic(diags.Error())
+	}
+	return &hcldec.TransformExprSpec{
+		Wrapped:      toHCLDec(s.Nested),
+		Expr:         expr,
+		TransformCtx: &hcl.EvalContext{Functions: map[string]function.Function{"xform": fn}},
+		VarName:      "v",
+	}
+}
 
 func validateFn(v cty.Value) hcl.Diagnostics {
 	u, _ := v.Unmark()
@@ -72,7 +104,7 @@ func toHCLDec(s *gen.SpecM) hcldec.Spec {
 	case gen.SDefault:
 		return &hcldec.DefaultSpec{Primary: toHCLDec(s.Primary), Default: toHCLDec(s.Default)}
 	case gen.STransformFunc:
-		return &hcldec.TransformFuncSpec{Wrapped: toHCLDec(s.Nested), Func: transformFn}
+		return transformSpec(s)
 	case gen.SValidate:
 		return &hcldec.ValidateSpec{Wrapped: toHCLDec(s.Nested), Func: validateFn}
 	case gen.SRefine:
